@@ -25,7 +25,7 @@ Import ListNotations.
 (* ------------------------------------------------------------------------------------------------ Part 1 *)
 Inductive deliv := DPtr | DRet | DNone.
 Inductive cont := KReturn | KFlow | KHandled | KOverwritten | KIgnored | KUnparsed.
-Inductive srcf := FAdfApi | FAdfInt | FCgio.
+Inductive srcf := FAdfApi | FAdfInt | FCgio | FMll.
 Inductive style := SPtr | SRet | SNone.        (* the function's own status: *error_return / return value / none *)
 Record site := mkS { s_callee : positive; s_line : positive; s_deliv : deliv; s_cont : cont }.
 Record frow := mkF { f_id : positive; f_name : string; f_src : srcf; f_style : style; f_public : bool;
